@@ -107,6 +107,17 @@ def r1(F, rep):
                 rep.add("C16-R1", "%s|%s|%s" % (f.q, G, X.callee_name(m)), f.loc(m),
                         "%s->%s() in %s: %s" % (G, X.callee_name(m), f.q, why), ok,
                         detail="a stale divergence makes the incrementally integrated PMF differ from the batch one", func=f.q)
+                # a local refresh must be centred on the bin that was modified
+                if X.callee_name(m) == "acc_force" and X.call_args(m):
+                    ixk = X.re_strip(X.key(X.call_args(m)[0], f))
+                    for r in X.calls(f):
+                        if r["k"] == "CXXMemberCallExpr" and X.callee_name(r) == "update_div_neighbors" and recv_field(f, r) == P and \
+                                f.cfg.can_reach(m, r) and X.call_args(r):
+                            jxk = X.re_strip(X.key(X.call_args(r)[0], f))
+                            n += 1
+                            rep.add("C16-R1", "%s|%s|acc_force|same-bin" % (f.q, G), f.loc(r),
+                                    "the sample goes into bin `%s` and the divergence is refreshed around `%s`" % (ixk, jxk), ixk == jxk,
+                                    detail="the divergence around the modified bin stays stale whenever the two bins differ (one-step-late forces)", func=f.q)
     rep.count("gradient_mutation_sites", n)
     if n < 3:
         raise AnalysisBroken("only %d mutation sites of the incrementally integrated gradient grid found" % n)
